@@ -3,6 +3,7 @@ import itertools
 from usim import IntervalExceeded
 from ..run import run_one
 from ..oracles import kernel_health
+from ..dsl import num
 
 PROPERTY = 'C14'
 LEVEL = 'exploration'
@@ -116,6 +117,16 @@ def cases(tier):
                 for seq in ([period] * k, ['n'] + [period] * (k - 1), [period, 'i'] * (k // 2)):
                     out.append(program(kind, period, seq, 0, None))
                     out.append(program(kind, period, seq, 0.2, None))
+    # periods that are exact rationals (any number works as a period), and an infinite period: the first pause ends at time infinity
+    for kind in ('INTERVAL', 'DELAYLOOP'):
+        for period in ({'$': 'frac', 'n': 1, 'd': 3}, {'$': 'frac', 'n': 5, 'd': 2}, {'$': 'frac', 'n': 0, 'd': 1}):
+            for seq in seqs[:30]:
+                for start in (0, 3):
+                    out.append(program(kind, period, seq, start, None))
+        for start in (0, 3, -2):
+            for seq in (('n',), ('i',)):
+                out.append(program(kind, 'inf', seq, start, None))
+                out.append(program(kind, 'inf', seq, start, None, second=('INTERVAL', 1, ('n', 'n'))))
     # a ticker that is closed forcefully while it pauses (volatile child at the end of its scope / run(till=...)) leaves
     # nothing behind: the tickers that go on afterwards are undisturbed
     for kind in ('INTERVAL', 'DELAYLOOP'):
@@ -209,7 +220,7 @@ def judge(ctx, program, hit=()):
             continue
         pc = log[begin][2]
         op = op_of(program, act, pc)
-        meta = {'kind': op[0], 'period': op[1], 'durs': program['_meta']['durs'] if act == 'tk' else None}
+        meta = {'kind': op[0], 'period': num(op[1]), 'durs': program['_meta']['durs'] if act == 'tk' else None}
         if act != 'tk':
             meta['durs'] = durs_of(op)
         if act == 'tk' and launch:
@@ -238,8 +249,8 @@ def judge(ctx, program, hit=()):
         ticks, outcome = expected(meta, log[begin][3])
         got = [(i, r[3], r[4]) for i, r in enumerate(log) if r[0] == 'tick' and r[1] == act and r[2] == pc]
         fin = next(((r[0], r[3], r[4]) for r in log[begin:] if r[0] in ('end', 'exc') and r[1] == act and r[2] == pc), None)
-        want = [t for t in ticks if t < dl]
-        tie = [t for t in ticks if t == dl]
+        want = [t for t in ticks if t < dl or dl == INF]      # (no deadline: a tick at time infinity counts too)
+        tie = [t for t in ticks if t == dl and dl != INF]
         if act in hit:
             tie = tie + [t for t in ticks if t > dl][:0]
         gt = [t for _, t, _ in got]
@@ -251,7 +262,7 @@ def judge(ctx, program, hit=()):
         kind_, t_out = outcome
         # (an overrun that is complete in the time step in which the flag of the enclosing until block is raised: the body's
         # wake-up is queued ahead of the block's interrupt, so the overrun is noticed first)
-        if t_out < dl or (flag_tie and kind_ == 'exceeded' and t_out == dl and ticks and ticks[-1] < dl):
+        if t_out < dl or dl == INF or (flag_tie and kind_ == 'exceeded' and t_out == dl and ticks and ticks[-1] < dl):
             if kind_ == 'end' and (fin is None or fin[0] != 'end' or fin[1] != t_out):
                 msgs.append('%s: loop should end normally at %r, got %r' % (act, t_out, fin))
             if kind_ == 'exceeded' and (fin is None or fin[0] != 'exc' or not isinstance(fin[2], IntervalExceeded) or fin[1] != t_out):
